@@ -79,6 +79,9 @@ impl Side {
 impl Dist {
     /// sign of margin_no_header(leaf, normal): > 0 => Right, < 0 => Left, 0 => random (Kani unit distance_side proves this of the real default method)
     pub uninterp spec fn margin_sign(normal: VecV, leaf: LeafV) -> int;
+    /// the raw margin of a vector against a plane (a float: any value, including 0 and NaN)
+    #[verifier::external_body]
+    pub fn margin_no_header(p: &UVec, q: &UVec) -> (r: f32) { unimplemented!() }
     #[verifier::external_body]
     pub fn side<R: Rng>(normal_plane: &UVec, node: &Leaf, rng: &mut R) -> (r: Side)
         ensures Dist::margin_sign(normal_plane.vv(), node.lv()) > 0 ==> r is Right, Dist::margin_sign(normal_plane.vv(), node.lv()) < 0 ==> r is Left
